@@ -41,7 +41,9 @@ SPEC = {
                 "ugorji msgpack and golang protobuf byte formats"],
     "level_text": "Theorems (Props/C01.v) over the Gallina transcription of FSM.Apply/Snapshot/Persist/Restore, LogOp.ApplyTo, "
                   "dsstate Marshal/Unmarshal and ProtoMarshal/ProtoUnmarshal for every log and every schedule of apply, snapshot, "
-                  "install and restart events; the transcription is driven by the schedule observed on real Raft nodes at every run",
+                  "install and restart events; the transcription is driven by the schedule observed on real Raft nodes at every run. Monitor theorems "
+                  "(Proofs/C01_Monitor.v, for every trace): spec_okb accepted => the Prop-level reading trace_spec; implementation = model on a trace "
+                  "(code 1 absent) under trace_guard (atomic snapshots, no S19) => every monitor conjunct the model speaks about (all but OAck, OReady)",
     "level_note": "partial: commitment, durability of acknowledged entries and the single committed sequence are hashicorp/raft's "
                   "(assumed by the model, sampled by the rigs); model tied to code by differential testing",
     "assumptions": ["hashicorp/raft applies committed entries in index order and installs only snapshots it persisted",
